@@ -25,6 +25,7 @@ class NodeEnv:
         self.node_id = node_id
         self.qmem = qmem
         self.clock = clock
+        self.instr_done = 0          # completed instructions (progress measure for the liveness watches)
         self.before_instr: List[Callable] = []
         self.after_instr: List[Callable] = []
         self.retry_armed = False
@@ -60,6 +61,7 @@ class SimExecutor(Executor):
         for f in self.env.before_instr:
             f(self, subroutine_id, pc, command)
         yield from super()._execute_command(subroutine_id, command)
+        self.env.instr_done += 1
         for f in self.env.after_instr:
             f(self, subroutine_id, pc, command)
         yield ("instr", subroutine_id, pc)
